@@ -155,7 +155,7 @@ def same_ast(a, b):
 # ---------------------------------------------------------------------------
 # forward must-dataflow over a CFG
 
-def forward(cfg, init, transfer, join, skip_exc_from=None):
+def forward(cfg, init, transfer, join, avoid_edges=()):
     """Generic forward dataflow.  transfer(node, state, label) -> state for the
     out-edge `label`; join(list of states) -> state.  States must be comparable
     (==).  Returns IN state per node (None = unreachable)."""
@@ -172,6 +172,8 @@ def forward(cfg, init, transfer, join, skip_exc_from=None):
         if st is None:
             continue
         for s, lab in n.succ:
+            if (n, lab) in avoid_edges:
+                continue
             out = transfer(n, st, lab)
             if out is None:
                 continue
